@@ -324,6 +324,12 @@ func corrActions(seed uint64, n int, tier string, out string, replay string) {
 		if backend == "memory" {
 			faultLevel = 0 // the memory driver hands out shared pointers: faults are exercised on the object drivers
 		}
+		if i%16 == 15 {
+			// a long chain: revisions pass 9 -> 10 -> 11 under a history limit (pruning must go by revision
+			// number, and the object drivers list records in name order)
+			runHistoryLong(m, rep, r, []string{"secrets", "configmaps", "memory"}[(i/16)%3], seed, i)
+			continue
+		}
 		runHistory(m, rep, r, backend, faultLevel, 3+r.Intn(6), seed, i)
 	}
 	rep.Write(out, m)
@@ -341,6 +347,23 @@ func newBackend(name string) driver.Driver {
 	return d
 }
 
+// longPlan: when set, operation k of the history is overridden (long fault-free chains under a limit)
+var longPlan func(k int, op *actOp)
+
+func runHistoryLong(m *Model, rep *Report, r *Rng, backend string, seed uint64, idx int) {
+	limit := 2 + r.Intn(3)
+	longPlan = func(k int, op *actOp) {
+		*op = actOp{Kind: "upgrade", Payload: op.Payload, MaxHistory: limit, DisableHooks: true}
+		if k == 0 {
+			op.Kind = "install"
+		} else if r.Chance(12) {
+			op.Kind = "rollback"
+		}
+	}
+	defer func() { longPlan = nil }()
+	runHistory(m, rep, r, backend, 0, 12+r.Intn(4), seed, idx)
+}
+
 func runHistory(m *Model, rep *Report, r *Rng, backend string, faultLevel, nops int, seed uint64, idx int) {
 	w := newSimWorld(newBackend(backend))
 	defer w.close()
@@ -350,6 +373,9 @@ func runHistory(m *Model, rep *Report, r *Rng, backend string, faultLevel, nops 
 	payload := 1
 	for k := 0; k < nops; k++ {
 		op := genActOp(r, ledger, payload, faultLevel)
+		if longPlan != nil {
+			longPlan(k, &op)
+		}
 		payload++
 		hist = append(hist, op)
 		before := implLedger(w)
